@@ -39,6 +39,7 @@ thread_local! {
     pub static DV: RefCell<Vec<u64>> = RefCell::new(Vec::new());
     pub static LIVE: RefCell<BTreeSet<u64>> = RefCell::new(BTreeSet::new());
     pub static VIOL: RefCell<Vec<String>> = RefCell::new(Vec::new());
+    pub static GRAVE: RefCell<Vec<Box<dyn std::any::Any>>> = RefCell::new(Vec::new());
 }
 
 /// A call into user code that may panic (Hash, Clone, predicate, closure).
@@ -54,6 +55,16 @@ pub fn cb() {
     } else if f > 0 {
         FUSE.store(f - 1, SeqCst);
     }
+}
+
+/// What a call hands back to its caller is kept until the call's counters have been read: the
+/// caller's own drops (also while unwinding) are not the map's.
+pub fn bury<T: 'static>(x: T) {
+    GRAVE.with(|g| g.borrow_mut().push(Box::new(x)));
+}
+pub fn exhume() {
+    let v = GRAVE.with(|g| std::mem::take(&mut *g.borrow_mut()));
+    drop(v);
 }
 
 pub fn violation(s: String) {
